@@ -11,11 +11,11 @@ package main
 //     flag), each composite literal fills at most one member with its own flag.
 
 import (
-	"regexp"
 	"fmt"
 	"go/ast"
 	"go/token"
 	"go/types"
+	"regexp"
 	"sort"
 	"strings"
 )
